@@ -18,8 +18,9 @@ import (
 var EOFMarker = []byte{0x1f, 0x8b, 0x08, 0x04, 0, 0, 0, 0, 0, 0xff, 0x06, 0, 0x42, 0x43, 0x02, 0, 0x1b, 0, 0x03, 0, 0, 0, 0, 0, 0, 0, 0, 0}
 
 const (
-	MaxMember  = 65536
-	MaxPayload = 65280
+	MaxMember   = 65536 // a member is at most 2^16 bytes (BSIZE is 16 bits)
+	MaxPayload  = 65280 // what a writer puts into one member (the library's BlockSize)
+	MaxInflated = 65536 // what a member may inflate to (SAM v1 §4.1: at most 2^16 bytes)
 )
 
 // Member is one parsed gzip member of a BGZF stream.
@@ -123,12 +124,12 @@ func ParseMember(b []byte) (*Member, error) {
 		return nil, errors.New("member too short for its header and trailer")
 	}
 	fr := flate.NewReader(bytes.NewReader(b[p : len(b)-8]))
-	payload, err := io.ReadAll(io.LimitReader(fr, MaxPayload+1))
+	payload, err := io.ReadAll(io.LimitReader(fr, MaxInflated+1))
 	if err != nil {
 		return nil, fmt.Errorf("deflate: %v", err)
 	}
-	if len(payload) > MaxPayload {
-		return nil, fmt.Errorf("payload larger than %d", MaxPayload)
+	if len(payload) > MaxInflated {
+		return nil, fmt.Errorf("payload larger than %d", MaxInflated)
 	}
 	// the deflate stream must end exactly at the trailer
 	if n, _ := fr.Read(make([]byte, 1)); n != 0 {
